@@ -138,7 +138,19 @@ class Stub(types.SimpleNamespace):
 STUBS_USED = []
 
 
+BUILT = {}      # __id__ of a symbolic array / object -> the native value built for it (keeps aliasing between arguments)
+
+
 def build(v, memo=None):
+    if isinstance(v, dict) and "__id__" in v:
+        key = v["__id__"]
+        if key not in BUILT:
+            BUILT[key] = _build(v)
+        return BUILT[key]
+    return _build(v)
+
+
+def _build(v, memo=None):
     if isinstance(v, dict):
         if "__array__" in v:
             shp = v["shape"]
